@@ -760,8 +760,8 @@ def run_property(mod, argv=None):
         'wall_s': wall,
         'violations': len(confirmed),
     }
-    if args.part:
-        # a run restricted to one part is a development aid: it must not replace the evidence of the whole check
+    if args.part or os.environ.get('VERIF_REPO'):
+        # a run restricted to one part (or against a scratch copy of /repo) is a development aid: it must not replace the evidence of the whole check
         edir = os.path.join(VERIF, 'out', 'evidence-partial')
         os.makedirs(edir, exist_ok=True)
         json.dump(evidence, open(os.path.join(edir, '%s.json' % pid), 'w'), indent=1, default=str)
